@@ -135,7 +135,6 @@ let show_verdict = function
   | FailsKnown c -> (match int_of_n c with
       | 1 -> "fails:C10-collateral-plutus"
       | 2 -> "fails:C10-proposal-redeemer-without-script"
-      | 3 -> "fails:C10-stale-spend-witness"
       | _ -> "fails:-")
   | FailsUnknown -> "fails:-"
 
